@@ -701,6 +701,59 @@ func checkFilters(c *hx.Ctx, kase caseID, r *hx.Rng, chunks []*rag.Chunk) {
 	chk(c, "C14/filter-exact", same && k == len(got), kase, func() string {
 		return fmt.Sprintf("Filter(arbitrary predicate) returned %v, predicate holds for %d chunks", idsOf(got), k)
 	})
+	branchingFilters(c, r, kase, chunks)
+}
+
+// branchingFilters: an intermediate result is kept and filtered twice; every collection
+// involved (the source, the intermediate, both branches) must still hold exactly the
+// chunks satisfying its predicate, in order, after all the calls have been made.
+func branchingFilters(c *hx.Ctx, r *hx.Rng, kase caseID, chunks []*rag.Chunk) {
+	mk := func() map[*rag.Chunk]bool {
+		m := map[*rag.Chunk]bool{}
+		for _, ch := range chunks {
+			if r.Chance(2, 3) {
+				m[ch] = true
+			}
+		}
+		return m
+	}
+	p1, p2, p3 := mk(), mk(), mk()
+	src := rag.NewChunkCollection(chunks)
+	a := src.Filter(func(ch *rag.Chunk) bool { return p1[ch] })
+	b := a.Filter(func(ch *rag.Chunk) bool { return p2[ch] })
+	cc := a.Filter(func(ch *rag.Chunk) bool { return p3[ch] })
+	d := b.Filter(func(ch *rag.Chunk) bool { return p3[ch] })
+	want := func(ps ...map[*rag.Chunk]bool) []*rag.Chunk {
+		var out []*rag.Chunk
+		for _, ch := range chunks {
+			ok := true
+			for _, p := range ps {
+				ok = ok && p[ch]
+			}
+			if ok {
+				out = append(out, ch)
+			}
+		}
+		return out
+	}
+	check := func(name string, got *rag.ChunkCollection, w []*rag.Chunk) {
+		g := got.ToSlice()
+		same := len(g) == len(w)
+		for i := 0; same && i < len(g); i++ {
+			same = g[i] == w[i]
+		}
+		kk := kase
+		kk.What = "branching filter chain: " + name
+		chk(c, "C14/filter-exact", same, kk, func() string {
+			return fmt.Sprintf("after a:=src.Filter(p1); b:=a.Filter(p2); c:=a.Filter(p3); d:=b.Filter(p3): %s holds %v, its predicate selects %v", name, idsOf(g), idsOf(w))
+		})
+	}
+	check("src", src, want())
+	check("a", a, want(p1))
+	check("b", b, want(p1, p2))
+	check("c", cc, want(p1, p3))
+	check("d", d, want(p1, p2, p3))
+	c.Count("filter-branching")
 }
 
 func idsOf(cs []*rag.Chunk) []string {
